@@ -14,7 +14,9 @@ pub mod c11;
 pub mod c12;
 pub mod c13;
 pub mod c14;
+pub mod c15;
 pub mod c16;
+pub mod c17;
 pub mod c18;
 
 pub fn all() -> Vec<Box<dyn Property>> {
@@ -33,7 +35,9 @@ pub fn all() -> Vec<Box<dyn Property>> {
         Box::new(c12::C12),
         Box::new(c13::C13),
         Box::new(c14::C14),
+        Box::new(c15::C15),
         Box::new(c16::C16),
+        Box::new(c17::C17),
         Box::new(c18::C18),
     ]
 }
